@@ -321,14 +321,14 @@ def c20_rsa(b0: Tuple[int, int, int], n0: int, b1: Tuple[int, int, int], n1: int
 def _sh_fa(tier):
     if tier == "quick":
         return product_pins(m=[2], starts=[3], finals=[2], l0=[0, 3], l1=[2, 4, 6])
-    return product_pins(m=[1, 2, 3], starts=[1, 3], finals=[2, 3], l0=[0, 2, 3, 7, 8], l1=[1, 2, 4, 5, 6, 9])
+    return product_pins(m=[1, 2, 3], l0=[0, 2, 3, 7, 8], l1=[1, 2, 4, 5, 6, 9])
 
 
 def _sh_pda(tier):
     if tier == "quick":
         return [dict(m=2, finals=2, sl=a, kl=b, il=c, f0=0, c0=d) for (a, b, c) in ((0, 0, 0), (1, 1, 1), (2, 2, 0))
                 for d in (0, 3, 4)] + [dict(m=1, finals=2, sl=3, kl=3, il=2), dict(m=1, finals=2, sl=4, kl=1, il=1)]
-    return product_pins(m=[1, 2], finals=[0, 2, 3], sl=[0, 1, 2, 3, 4], kl=[0, 1, 2, 3], il=[0, 1, 2], f0=[0, 1])
+    return product_pins(m=[1, 2], sl=[0, 1, 2, 3, 4], kl=[0, 1, 2, 3], il=[0, 1, 2])
 
 
 def _sh_text(tier):
